@@ -145,12 +145,12 @@ func (g *c26Genesis) build(parentHash types.HeaderHash, parentRoot types.StateRo
 	if blob != nil {
 		pre = types.PreimagesExtrinsic{{Requester: c26Service, Blob: append(types.ByteSequence(nil), blob...)}}
 	}
-	return g.buildExt(parentHash, parentRoot, slot, pre, mut)
+	return g.buildExt(parentHash, parentRoot, slot, types.Extrinsic{Preimages: pre}, mut)
 }
 
-func (g *c26Genesis) buildExt(parentHash types.HeaderHash, parentRoot types.StateRoot, slot types.TimeSlot, pre types.PreimagesExtrinsic, mut c26Mut) (types.Block, types.HeaderHash, error) {
+func (g *c26Genesis) buildExt(parentHash types.HeaderHash, parentRoot types.StateRoot, slot types.TimeSlot, ext types.Extrinsic, mut c26Mut) (types.Block, types.HeaderHash, error) {
 	var b types.Block
-	b.Extrinsic.Preimages = pre
+	b.Extrinsic = ext
 	xh, err := utilities.CreateExtrinsicHash(b.Extrinsic)
 	if err != nil {
 		return b, types.HeaderHash{}, err
@@ -225,6 +225,7 @@ func c26ResetGlobals() {
 var c26EventNames = []string{
 	"child-empty", "child-preimage", "sibling", "bad-slot", "bad-parent-state-root", "bad-extrinsic-hash",
 	"bad-seal", "wrong-author", "bad-preimage-order", "resend-last-rejected", "resend-last-accepted",
+	"sibling-bad-seal", "bad-ticket", "preimage-unneeded",
 }
 
 const (
@@ -239,10 +240,14 @@ const (
 	c26EvBadPreOrder
 	c26EvResendRejected
 	c26EvResendAccepted
+	c26EvSiblingBadSeal // invalid fork block: restore to the parent, then a late failure
+	c26EvBadTicket      // ticket extrinsic with a garbage ring proof: fails inside Safrole, after the header checks
+	c26EvPreUnneeded    // well-formed preimage nobody solicited: fails in ValidateExtrinsic, after Safrole and the seal checks
 )
 
 type c26Case struct {
-	Seq []int `json:"seq"`
+	Base int   `json:"base"` // 0: head = genesis (empty recent history); 1: head = one valid block on genesis
+	Seq  []int `json:"seq"`
 }
 
 // what the harness knows about a block of the chain (only from the node's answers)
@@ -270,6 +275,7 @@ type c26Step struct {
 
 func c26CopyBlock(b types.Block) types.Block {
 	c := b
+	c.Extrinsic.Tickets = append(types.TicketsExtrinsic(nil), b.Extrinsic.Tickets...)
 	c.Extrinsic.Preimages = nil
 	for _, p := range b.Extrinsic.Preimages {
 		c.Extrinsic.Preimages = append(c.Extrinsic.Preimages, types.Preimage{Requester: p.Requester, Blob: append(types.ByteSequence(nil), p.Blob...)})
@@ -291,6 +297,7 @@ func c26Digest(kvs types.StateKeyVals) (string, types.StateRoot) {
 }
 
 type c26Runner struct {
+	initDigest string
 	g        *c26Genesis
 	svc      *FuzzServiceStub
 	nodes    map[types.HeaderHash]*c26Node
@@ -298,7 +305,7 @@ type c26Runner struct {
 	imports  uint64
 }
 
-func c26NewNode(g *c26Genesis) (*c26Runner, types.StateRoot, error) {
+func c26NewNode(g *c26Genesis, base int) (*c26Runner, types.StateRoot, error) {
 	c26ResetGlobals()
 	rn := &c26Runner{g: g, svc: &FuzzServiceStub{}, nodes: map[types.HeaderHash]*c26Node{}}
 	root, err := rn.svc.SetState(g.header, c26CopyKVs(g.keyvals), nil)
@@ -308,7 +315,25 @@ func c26NewNode(g *c26Genesis) (*c26Runner, types.StateRoot, error) {
 	gen := &c26Node{hash: g.hash, slot: 0, root: root}
 	rn.nodes[g.hash] = gen
 	rn.head = gen
-	return rn, root, nil
+	if base == 1 {
+		// one valid block on genesis, so that the head has a non-empty recent history
+		// (beta.history[last].state_root is what the STF writes first, in place)
+		b, hh, err := g.build(g.hash, root, 1, nil, c26Valid)
+		if err != nil {
+			return nil, root, err
+		}
+		st := rn.importBlock(c26EvChildEmpty, b, hh, 0)
+		if !st.accepted {
+			return nil, root, fmt.Errorf("base block rejected on a fresh node: %s", st.err)
+		}
+		rn.imports = 0
+	}
+	kvs, err := rn.svc.GetState(rn.head.hash)
+	if err != nil {
+		return nil, root, err
+	}
+	rn.initDigest, _ = c26Digest(kvs)
+	return rn, rn.head.root, nil
 }
 
 // importBlock sends one block and records what the node answers.
@@ -341,13 +366,23 @@ func c26NPre(b types.Block, parentNPre int) int {
 	return parentNPre
 }
 
+type c26InitInfo struct {
+	hash   types.HeaderHash
+	root   types.StateRoot
+	digest string
+}
+
+// head of the node before the first event of the last c26RunA
+var c26Init c26InitInfo
+
 // c26RunA runs the whole event sequence on a fresh node, building each block from
 // the node's earlier answers. ok=false: an event was not applicable.
-func c26RunA(g *c26Genesis, seq []int) (steps []c26Step, applicable bool, imports uint64, err error) {
-	rn, _, err := c26NewNode(g)
+func c26RunA(g *c26Genesis, base int, seq []int) (steps []c26Step, applicable bool, imports uint64, err error) {
+	rn, _, err := c26NewNode(g, base)
 	if err != nil {
 		return nil, false, 0, err
 	}
+	c26Init = c26InitInfo{hash: rn.head.hash, root: rn.head.root, digest: rn.initDigest}
 	var lastRejected, lastAccepted *c26Step
 	for _, ev := range seq {
 		head := rn.head
@@ -381,6 +416,20 @@ func c26RunA(g *c26Genesis, seq []int) (steps []c26Step, applicable bool, import
 			b, hh, berr = g.build(head.hash, head.root, head.slot+1, nil, c26WrongAuthor)
 		case c26EvBadPreOrder:
 			b, hh, berr = g.buildTwoPreimages(head.hash, head.root, head.slot+1, head.nPre)
+		case c26EvSiblingBadSeal:
+			if head.hash == g.hash {
+				return nil, false, rn.imports, nil
+			}
+			par := rn.nodes[head.parent]
+			b, hh, berr = g.build(par.hash, par.root, head.slot+1, nil, c26BadSeal)
+		case c26EvBadTicket:
+			var t types.TicketEnvelope
+			for i := range t.Signature {
+				t.Signature[i] = byte(0xA0 + i%7)
+			}
+			b, hh, berr = g.buildExt(head.hash, head.root, head.slot+1, types.Extrinsic{Tickets: types.TicketsExtrinsic{t}}, c26Valid)
+		case c26EvPreUnneeded:
+			b, hh, berr = g.build(head.hash, head.root, head.slot+1, []byte{0xEE, 0x01, 0x02, byte(head.slot)}, c26Valid)
 		case c26EvResendRejected:
 			if lastRejected == nil {
 				return nil, false, rn.imports, nil
@@ -429,12 +478,12 @@ func (g *c26Genesis) buildTwoPreimages(parentHash types.HeaderHash, parentRoot t
 	if bytes.Compare(b1, b2) < 0 {
 		b1, b2 = b2, b1
 	}
-	return g.buildExt(parentHash, parentRoot, slot, types.PreimagesExtrinsic{{Requester: c26Service, Blob: b1}, {Requester: c26Service, Blob: b2}}, c26Valid)
+	return g.buildExt(parentHash, parentRoot, slot, types.Extrinsic{Preimages: types.PreimagesExtrinsic{{Requester: c26Service, Blob: b1}, {Requester: c26Service, Blob: b2}}}, c26Valid)
 }
 
 // c26Replay sends the given blocks to a fresh node.
-func c26Replay(g *c26Genesis, blocks []c26Step) ([]c26Step, uint64, error) {
-	rn, _, err := c26NewNode(g)
+func c26Replay(g *c26Genesis, base int, blocks []c26Step) ([]c26Step, uint64, error) {
+	rn, _, err := c26NewNode(g, base)
 	if err != nil {
 		return nil, 0, err
 	}
@@ -471,12 +520,12 @@ func c26ErrClass(s string) string {
 }
 
 // c26Check runs one sequence with the differential oracle.
-func c26Check(r *vlib.Run, g *c26Genesis, genesisDigest string, c c26Case) bool {
+func c26Check(r *vlib.Run, g *c26Genesis, c c26Case) bool {
 	var steps []c26Step
 	var ok bool
 	var imports uint64
 	var err error
-	panicked, msg, site := vlib.Guard(func() { steps, ok, imports, err = c26RunA(g, c.Seq) })
+	panicked, msg, site := vlib.Guard(func() { steps, ok, imports, err = c26RunA(g, c.Base, c.Seq) })
 	if panicked {
 		r.Violation(site, "go-panic", "last="+c26EventNames[c.Seq[len(c.Seq)-1]], fmt.Sprintf("sequence %s: %s", c26SeqString(c.Seq), msg), c)
 		return true
@@ -489,12 +538,13 @@ func c26Check(r *vlib.Run, g *c26Genesis, genesisDigest string, c c26Case) bool 
 	}
 	r.TransitionN(imports)
 	r.Eval()
-	seqs := c26SeqString(c.Seq)
+	seqs := fmt.Sprintf("[base %d] %s", c.Base, c26SeqString(c.Seq))
+	init := c26Init
 
 	// (1) after every step: GetState(head) is retrievable, merklizes to the root the node
 	// reported for the head, and after a rejection equals what it was before the step
-	prevDigest, prevHead := genesisDigest, g.hash
-	roots := map[types.HeaderHash]types.StateRoot{}
+	prevDigest, prevHead := init.digest, init.hash
+	roots := map[types.HeaderHash]types.StateRoot{init.hash: init.root}
 	var lastRejectedKind string
 	for i, s := range steps {
 		if s.accepted {
@@ -512,7 +562,7 @@ func c26Check(r *vlib.Run, g *c26Genesis, genesisDigest string, c c26Case) bool 
 			}
 		}
 		prevDigest, prevHead = s.headDigest, s.head
-		r.State(fmt.Sprintf("%x|%s|%s", s.head[:8], s.headDigest, lastRejectedKind))
+		r.State(fmt.Sprintf("%d|%x|%s|%s", c.Base, s.head[:8], s.headDigest, lastRejectedKind))
 		if !s.accepted {
 			lastRejectedKind = name
 		}
@@ -535,7 +585,7 @@ func c26Check(r *vlib.Run, g *c26Genesis, genesisDigest string, c c26Case) bool 
 			pre = append(pre, s)
 			var rep []c26Step
 			var n uint64
-			panicked, msg, site := vlib.Guard(func() { rep, n, err = c26Replay(g, pre) })
+			panicked, msg, site := vlib.Guard(func() { rep, n, err = c26Replay(g, c.Base, pre) })
 			if panicked {
 				r.Violation(site, "go-panic", "clean-node;last="+c26EventNames[s.ev], fmt.Sprintf("%s: clean node, step %d: %s", seqs, i+1, msg), c)
 				return true
@@ -585,7 +635,7 @@ func c26Check(r *vlib.Run, g *c26Genesis, genesisDigest string, c c26Case) bool 
 	// (3) the same block sequence on a second fresh node gives identical answers
 	var again []c26Step
 	var n uint64
-	panicked, msg, site = vlib.Guard(func() { again, n, err = c26Replay(g, steps) })
+	panicked, msg, site = vlib.Guard(func() { again, n, err = c26Replay(g, c.Base, steps) })
 	if panicked {
 		r.Violation(site, "go-panic", "second-run", fmt.Sprintf("%s: second run: %s", seqs, msg), c)
 		return true
@@ -617,7 +667,7 @@ func TestVerif_C26(t *testing.T) {
 
 	// self-test: genesis is retrievable and two rebuilds give the same canonical state;
 	// valid children (empty, with a preimage) are accepted on a clean node
-	rn, root0, err := c26NewNode(g)
+	rn, root0, err := c26NewNode(g, 0)
 	if err != nil {
 		t.Fatalf("harness: SetState: %v", err)
 	}
@@ -629,40 +679,52 @@ func TestVerif_C26(t *testing.T) {
 	if genesisRoot != root0 {
 		t.Fatalf("harness: genesis GetState merklizes to %x, SetState reported %x", genesisRoot[:8], root0[:8])
 	}
-	rn2, root1, _ := c26NewNode(g)
-	kv1, _ := rn2.svc.GetState(g.hash)
-	if d, _ := c26Digest(kv1); d != genesisDigest || root1 != root0 {
-		t.Fatalf("harness self-test: two rebuilds differ")
+	for base := 0; base < 2; base++ {
+		a, ra, err1 := c26NewNode(g, base)
+		b, rb, err2 := c26NewNode(g, base)
+		if err1 != nil || err2 != nil || a.initDigest != b.initDigest || ra != rb || (base == 0 && a.initDigest != genesisDigest) {
+			t.Fatalf("harness self-test: two rebuilds of base %d differ (%v %v)", base, err1, err2)
+		}
 	}
 	// (the block builder must be able to extend the chain; whether a fork block is
 	// accepted is the node's business and only compared differentially)
-	if st, ok, _, err := c26RunA(g, []int{c26EvChildEmpty, c26EvChildPre, c26EvChildEmpty}); err != nil || !ok || !st[0].accepted || !st[1].accepted || !st[2].accepted {
+	if st, ok, _, err := c26RunA(g, 0, []int{c26EvChildEmpty, c26EvChildPre, c26EvChildEmpty}); err != nil || !ok || !st[0].accepted || !st[1].accepted || !st[2].accepted {
 		t.Fatalf("harness self-test: valid children are not accepted on a clean node: %+v %v", st, err)
 	}
 
 	var rc c26Case
 	if r.IsReplay(&rc) {
-		c26Check(r, g, genesisDigest, rc)
+		c26Check(r, g, rc)
 		return
 	}
 
+	// Every sequence is run to the end and compared step by step; nothing is merged or
+	// deduplicated across different rejection histories (r.State only counts).
+	// base 1 (head with a non-empty recent history): depth 3 quick / 4 thorough;
+	// base 0 (head = genesis, empty history): depth 3 in both tiers.
 	depth := vlib.Pick(r, 3, 4)
 	nEv := len(c26EventNames)
 	idx := uint64(0)
-	vlib.Sequences(nEv, depth, func(s []int) {
-		idx++
-		if !r.Mine(idx) || r.Expired() {
-			return
+	for base := 0; base < 2; base++ {
+		d := 3
+		if base == 1 {
+			d = depth
 		}
-		c := c26Case{Seq: append([]int(nil), s...)}
-		if c26Check(r, g, genesisDigest, c) {
-			r.Space(1)
-			r.Trace()
-			if r.WantSample() && idx%211 == 3 {
-				r.Sample(map[string]string{"sequence": c26SeqString(c.Seq)})
+		vlib.Sequences(nEv, d, func(s []int) {
+			idx++
+			if !r.Mine(idx) || r.Expired() {
+				return
 			}
-		}
-	})
+			c := c26Case{Base: base, Seq: append([]int(nil), s...)}
+			if c26Check(r, g, c) {
+				r.Space(1)
+				r.Trace()
+				if r.WantSample() && idx%211 == 3 {
+					r.Sample(map[string]string{"sequence": fmt.Sprintf("[base %d] %s", base, c26SeqString(c.Seq))})
+				}
+			}
+		})
+	}
 	r.Extra("depth", depth)
 	r.Extra("events", nEv)
 }
